@@ -1,9 +1,20 @@
 import Swat4.Model.QueueSys
 import Swat4.Properties.C10
+import Swat4.Lemmas.QueueSys
 /-!
 # C12 — Every queued probe is delivered at most once, on time and in order
 
 `QueueMachine.qstep` / `QueueSys` model `probes.enqueue` and `probes.PopMany` command by command.
+
+The interleaving theorems quantify over **all** event lists `es` (any number of producers and consumers, any
+interleaving of storage commands, clock ticks, deaths before / after a command) from any initial state `s0` with
+`s0.Init` (consistent store, empty probe queue, clients that have popped nothing and — if already started — stand
+at the first command of their call).  They are stated over `reach s0 es`, the state of the ghost-augmented system
+`GSys` (Lemmas/QueueSys.lean): the validated model `QSys` plus a log of accepted enqueues (`GEnq`: id, client,
+probe, expiry, ready time, clock) and a log of entries taken out of the store by pop batches (`GPop`: id, client,
+probe, expiry, score, clock of the batch, returned / counted expired).  `ghost_faithful` shows that erasing the
+logs gives exactly the model's run, `ghost_popped` that the model's own ghost field `QClient.popped` is the log's
+projection, and `batch_is_log` that the value a `PopMany` returns is what the log says.
 -/
 namespace Swat4.C12
 open Swat4 Std
@@ -28,5 +39,329 @@ theorem no_leak (st : RStore) (clock : Int) (fresh : Nat) (op : QOp) (pc : QPC) 
 /-- a `PopMany` of a non-positive count returns at once with an empty batch -/
 theorem pop_nonpositive (n : Int) (h : n ≤ 0) : (QOp.popMany n).begin = .done (.probes [] 0) := by
   simp [QOp.begin, h]
+
+/-! ## the ghost system is the model -/
+
+/-- the ghost state reached from `s0` by the events `es` -/
+abbrev reach (s0 : QSys) (es : List QSysEv) : GSys := (GSys.init s0).run es
+
+/-- erasing the ghost logs of `reach s0 es` gives exactly the state the model (and the driver) computes by folding
+`QSys.stepT` over `es` -/
+theorem ghost_faithful (s0 : QSys) (es : List QSysEv) :
+    (reach s0 es).sys = (es.foldl (fun (acc : QSys × List String) e => acc.1.stepT acc.2 e) (s0, [])).1 :=
+  GSys.run_sys _ es []
+
+/-- the model's own ghost field `popped` of every client is the projection of the pop log onto that client -/
+theorem ghost_popped (s0 : QSys) (h0 : s0.Init) (es : List QSysEv) (i : Nat) (c : QClient)
+    (hc : (reach s0 es).sys.clients[i]? = some c) : c.popped = poppedOf i (reach s0 es).pops :=
+  (((GInv.init h0).run es).clients i c hc).popped
+
+/-- what a `PopMany n` call holds at every pc, and returns when done, is exactly what the log says this consumer was
+handed (`returned = true` records, in order) and the number it dropped as expired (`returned = false` records) -/
+theorem batch_is_log (s0 : QSys) (h0 : s0.Init) (es : List QSysEv) (i : Nat) (c : QClient) (n : Int)
+    (hc : (reach s0 es).sys.clients[i]? = some c) (hs : c.started = true) (hop : c.op = .popMany n) :
+    match c.pc with
+    | .popRange got e => got = retOf i (reach s0 es).pops ∧ e = expOf i (reach s0 es).pops
+    | .popExec got e _ => got = retOf i (reach s0 es).pops ∧ e = expOf i (reach s0 es).pops
+    | .done (.probes got e) => got = retOf i (reach s0 es).pops ∧ e = expOf i (reach s0 es).pops
+    | _ => False := by
+  have h := (((GInv.init h0).run es).clients i c hc).pc hs
+  rw [hop] at h
+  cases hpc : c.pc with
+  | popRange got e => rw [hpc] at h; exact ⟨h.1, h.2.1⟩
+  | popExec got e ids => rw [hpc] at h; exact ⟨h.1, h.2.1⟩
+  | done r =>
+    rw [hpc] at h
+    cases r with
+    | probes got e => exact ⟨h.1, h.2.1⟩
+    | _ => exact h
+  | _ => rw [hpc] at h; exact h
+
+/-- the initial states the driver builds (`Drv/C12.lean`: empty store, any clock, any list of calls, each either not yet
+started or standing at its first command with arrival clock = the system clock) are admissible: `Init` and the
+arrival-clock hypothesis of `not_early` hold -/
+theorem init_of_calls (clock : Int) (fresh : Nat) (calls : List (QOp × Bool)) :
+    let s0 : QSys := { clock := clock, fresh := fresh, clients := calls.map fun (x : QOp × Bool) =>
+      if x.2 then ({ op := x.1, pc := .start } : QClient) else ({ op := x.1, pc := x.1.begin, started := true, arrival := clock } : QClient) }
+    s0.Init ∧ ∀ c ∈ s0.clients, c.started = true → c.arrival ≤ s0.clock := by
+  intro s0
+  refine ⟨⟨RStore.consistent_empty, fun id => by simp [s0], ?_⟩, ?_⟩
+  · intro c hc
+    obtain ⟨x, _, rfl⟩ := List.mem_map.1 hc
+    by_cases hx : x.2 = true
+    · rw [if_pos hx]; exact ⟨rfl, fun h => by cases h⟩
+    · rw [if_neg hx]; exact ⟨rfl, fun _ => rfl⟩
+  · intro c hc hs
+    obtain ⟨x, _, rfl⟩ := List.mem_map.1 hc
+    by_cases hx : x.2 = true
+    · rw [if_pos hx] at hs; cases hs
+    · rw [if_neg hx]; exact Int.le_refl _
+
+/-! ## 1. ids -/
+
+/-- ids are never reused: every id in `probes:items` / `probes:queue` is below the counter `fresh`; the `k`-th accepted
+enqueue of the run got id `s0.fresh + k` (strictly increasing, all below the counter), and the counter has moved by
+exactly the number of accepted enqueues -/
+theorem ids_fresh (s0 : QSys) (h0 : s0.Init) (es : List QSysEv) :
+    (∀ id : Nat, id ∈ (reach s0 es).sys.store.pItems → id < (reach s0 es).sys.fresh) ∧
+    (∀ id : Nat, id ∈ (reach s0 es).sys.store.pQueue → id < (reach s0 es).sys.fresh) ∧
+    (reach s0 es).sys.fresh = s0.fresh + (reach s0 es).enqs.length ∧
+    (reach s0 es).enqs.map (·.id) = List.range' s0.fresh (reach s0 es).enqs.length := by
+  have hG := (GInv.init h0).run es
+  have hF := GFInv.run (f0 := s0.fresh) (GInv.init h0) ⟨rfl, rfl⟩ es
+  exact ⟨hG.lt, fun id hid => hG.queueLt hid, hF.1, hF.2⟩
+
+/-- one accepted enqueue: the batch writes both structures under the id `fresh` and the counter moves on, whatever
+the store, the clock and the call's arguments -/
+theorem enqueue_uses_fresh (st : RStore) (clock : Int) (fresh : Nat) (p : Probe) (after before : GoTime) :
+    (qstep st clock fresh (.enqueue p after before) .start).1.pItems = st.pItems.insert fresh (p, before) ∧
+    (∃ r, (qstep st clock fresh (.enqueue p after before) .start).1.pQueue = st.pQueue.insert fresh r) ∧
+    (qstep st clock fresh (.enqueue p after before) .start).2.2.1 = true := by
+  cases after <;> exact ⟨rfl, ⟨_, rfl⟩, rfl⟩
+
+/-! ## 2. conservation, at most once -/
+
+/-- **conservation**: at every reachable state the ids ever enqueued are exactly the ids still queued together with
+the ids in the pop log (taken by some consumer: handed to it, counted as expired, or held when it died); no id is
+both queued and popped; no id occurs twice in the pop log; no id was enqueued twice.  So every enqueued probe is in
+exactly one place: the queue, or exactly one record of the pop log — which belongs to exactly one consumer
+(`at_most_once`) and is reflected in that consumer's `popped` field (`ghost_popped`) -/
+theorem conservation (s0 : QSys) (h0 : s0.Init) (es : List QSysEv) :
+    (∀ id : Nat, id ∈ (reach s0 es).enqs.map (·.id) ↔
+      (id ∈ (reach s0 es).sys.store.pQueue ∨ id ∈ (reach s0 es).pops.map (·.id))) ∧
+    (∀ id : Nat, id ∈ (reach s0 es).pops.map (·.id) → id ∉ (reach s0 es).sys.store.pQueue) ∧
+    ((reach s0 es).pops.map (·.id)).Nodup ∧
+    ((reach s0 es).enqs.map (·.id)).Nodup := by
+  have hG := (GInv.init h0).run es
+  exact ⟨hG.cover, hG.popOut, hG.popNodup, hG.enqInc.imp (fun h => Nat.ne_of_lt h)⟩
+
+/-- what is popped is what was enqueued: every pop record carries the probe, the expiry and (as its score) the
+ready time of the enqueue record with the same id; and every entry still stored does too -/
+theorem integrity (s0 : QSys) (h0 : s0.Init) (es : List QSysEv) :
+    (∀ d ∈ (reach s0 es).pops, ∃ e ∈ (reach s0 es).enqs,
+      e.id = d.id ∧ e.probe = d.probe ∧ e.expires = d.expires ∧ d.ready = some e.ready) ∧
+    (∀ (id : Nat) (pe : Probe × GoTime) (r : Int),
+      (reach s0 es).sys.store.pItems[id]? = some pe → (reach s0 es).sys.store.pQueue[id]? = some r →
+      ∃ e ∈ (reach s0 es).enqs, e.id = id ∧ e.probe = pe.1 ∧ e.expires = pe.2 ∧ e.ready = r) := by
+  have hG := (GInv.init h0).run es
+  exact ⟨hG.popSrc, hG.src⟩
+
+/-- **at most once**: two pop records with the same id are the same record — in particular the same consumer and the
+same batch; an id is never handed to two consumers, nor twice to one -/
+theorem at_most_once (s0 : QSys) (h0 : s0.Init) (es : List QSysEv) (d1 d2 : GPop)
+    (h1 : d1 ∈ (reach s0 es).pops) (h2 : d2 ∈ (reach s0 es).pops) (hid : d1.id = d2.id) :
+    d1 = d2 ∧ d1.client = d2.client := by
+  have := eq_of_nodup_map ((GInv.init h0).run es).popNodup h1 h2 hid
+  exact ⟨this, by rw [this]⟩
+
+/-! ## 3. batch size -/
+
+/-- a `PopMany n` call never holds more than `n` probes, at any pc; in particular the returned batch has at most `n`
+entries (and is empty for `n ≤ 0`) -/
+theorem batch_size (s0 : QSys) (h0 : s0.Init) (es : List QSysEv) (i : Nat) (c : QClient) (n : Int)
+    (hc : (reach s0 es).sys.clients[i]? = some c) (hs : c.started = true) (hop : c.op = .popMany n) :
+    match c.pc with
+    | .popRange got _ => got.length ≤ n.toNat
+    | .popExec got _ ids => got.length + ids.length ≤ n.toNat
+    | .done (.probes ps _) => ps.length ≤ n.toNat
+    | _ => False := by
+  have h := (((GInv.init h0).run es).clients i c hc).pc hs
+  rw [hop] at h
+  cases hpc : c.pc with
+  | popRange got e => rw [hpc] at h; exact Nat.le_of_lt h.2.2
+  | popExec got e ids => rw [hpc] at h; exact h.2.2.2
+  | done r =>
+    rw [hpc] at h
+    cases r with
+    | probes got e => exact h.2.2
+    | _ => exact h
+  | _ => rw [hpc] at h; exact h
+
+/-! ## 4./5. timing -/
+
+/-- **not early** (clock monotone: every tick amount ≥ 0): every entry a consumer took out of the store had a ready
+time — the one it was enqueued with — no later than the system clock at the moment of that pop batch -/
+theorem not_early (s0 : QSys) (h0 : s0.Init) (harr : ∀ c ∈ s0.clients, c.started = true → c.arrival ≤ s0.clock)
+    (es : List QSysEv) (hm : Monotone es) (d : GPop) (hd : d ∈ (reach s0 es).pops) :
+    ∃ e ∈ (reach s0 es).enqs, e.id = d.id ∧ e.probe = d.probe ∧ d.ready = some e.ready ∧ e.ready ≤ d.clk := by
+  have hG := (GInv.init h0).run es
+  have hT := GTInv.run (GInv.init h0) (TInv.init h0 harr) es hm
+  obtain ⟨e, he, h1, h2, _, h4⟩ := hG.popSrc d hd
+  obtain ⟨r, h5, h6, _⟩ := hT.popT d hd
+  rw [h4] at h5; cases h5
+  exact ⟨e, he, h1, h2, h4, h6⟩
+
+/-- **not late**: an entry that is handed to the consumer (`returned`, i.e. part of the batch by `batch_is_log`) has no
+expiry or an expiry not before the clock at its pop batch; an entry with an earlier expiry is counted, not returned -/
+theorem not_late (s0 : QSys) (h0 : s0.Init) (es : List QSysEv) (d : GPop) (hd : d ∈ (reach s0 es).pops) :
+    (d.returned = true → d.expires = none ∨ ∃ x, d.expires = some x ∧ d.clk ≤ x) ∧
+    (d.returned = false → ∃ x, d.expires = some x ∧ x < d.clk) := by
+  have h := ((GInv.init h0).run es).popRet d hd
+  rw [h]
+  unfold expiredAt
+  cases d.expires with
+  | none => simp
+  | some x => simp
+
+/-! ## 6. no leak at every reachable state -/
+
+/-- payload and ordering structures have the same key set (and the whole C10 invariant holds) in every state the
+model reaches from a consistent store: after every prefix of every interleaving, whatever the clients' states -/
+theorem no_leak_run (s0 : QSys) (h : RStore.Consistent s0.store) (es : List QSysEv) :
+    RStore.Consistent (s0.run es).store ∧
+    ∀ id : Nat, id ∈ (s0.run es).store.pQueue ↔ id ∈ (s0.run es).store.pItems :=
+  ⟨QSys.run_consistent h es, (QSys.run_consistent h es).prb⟩
+
+/-- … and after the driver's completion phase (`QSys.finish`: start every client, run the live ones round-robin) -/
+theorem no_leak_finish (s0 : QSys) (h : RStore.Consistent s0.store) (es : List QSysEv) (fuel : Nat) :
+    RStore.Consistent ((s0.run es).finish [] fuel).1.store :=
+  QSys.finish_consistent (QSys.run_consistent h es) [] fuel
+
+/-! ## the state the driver compares: after the completion phase -/
+
+/-- erasing the logs of the ghost completion phase gives the model's `QSys.finish` (start every client, then run the
+live ones round-robin), whatever the trace so far -/
+theorem ghost_faithful_finish (s0 : QSys) (es : List QSysEv) (tr : List String) (fuel : Nat) :
+    ((reach s0 es).finish fuel).sys = ((reach s0 es).sys.finish tr fuel).1 :=
+  GSys.finish_sys _ tr fuel
+
+/-- conservation, at-most-once, integrity, batch accounting and batch size also hold in the final state the driver
+compares (events, then `finish`) -/
+theorem conservation_final (s0 : QSys) (h0 : s0.Init) (es : List QSysEv) (fuel : Nat) :
+    (∀ id : Nat, id ∈ ((reach s0 es).finish fuel).enqs.map (·.id) ↔
+      (id ∈ ((reach s0 es).finish fuel).sys.store.pQueue ∨ id ∈ ((reach s0 es).finish fuel).pops.map (·.id))) ∧
+    (∀ id : Nat, id ∈ ((reach s0 es).finish fuel).pops.map (·.id) → id ∉ ((reach s0 es).finish fuel).sys.store.pQueue) ∧
+    (((reach s0 es).finish fuel).pops.map (·.id)).Nodup ∧
+    (∀ d ∈ ((reach s0 es).finish fuel).pops, ∃ e ∈ ((reach s0 es).finish fuel).enqs,
+      e.id = d.id ∧ e.probe = d.probe ∧ e.expires = d.expires ∧ d.ready = some e.ready) ∧
+    (∀ (i : Nat) (c : QClient), ((reach s0 es).finish fuel).sys.clients[i]? = some c →
+      c.popped = poppedOf i ((reach s0 es).finish fuel).pops ∧
+      (c.started = true → PcOK c.op c.pc (retOf i ((reach s0 es).finish fuel).pops) (expOf i ((reach s0 es).finish fuel).pops))) := by
+  have hG := ((GInv.init h0).run es).finish fuel
+  exact ⟨hG.cover, hG.popOut, hG.popNodup, hG.popSrc, fun i c hc => ⟨(hG.clients i c hc).popped, (hG.clients i c hc).pc⟩⟩
+
+/-- not-early / not-late in the final state the driver compares -/
+theorem timing_final (s0 : QSys) (h0 : s0.Init) (harr : ∀ c ∈ s0.clients, c.started = true → c.arrival ≤ s0.clock)
+    (es : List QSysEv) (hm : Monotone es) (fuel : Nat) (d : GPop) (hd : d ∈ ((reach s0 es).finish fuel).pops) :
+    (∃ r, d.ready = some r ∧ r ≤ d.clk) ∧
+    (d.returned = true → d.expires = none ∨ ∃ x, d.expires = some x ∧ d.clk ≤ x) := by
+  have hG := ((GInv.init h0).run es).finish fuel
+  have hT := GTInv.finish ((GInv.init h0).run es) (GTInv.run (GInv.init h0) (TInv.init h0 harr) es hm) fuel
+  obtain ⟨r, h5, h6, _⟩ := hT.popT d hd
+  refine ⟨⟨r, h5, h6⟩, ?_⟩
+  rw [hG.popRet d hd]
+  unfold expiredAt
+  cases d.expires with
+  | none => simp
+  | some x => simp
+
+/-! ## 7./8. batch order -/
+
+/-- the returned batch of consumer `i` is in ready-time order (stated on the pop records that make up the batch, see `batch_is_log`) -/
+def SortedBatch (g : GSys) (i : Nat) : Prop :=
+  (g.pops.filter fun d => d.client == i && d.returned).Pairwise fun a b => ∃ ra rb, a.ready = some ra ∧ b.ready = some rb ∧ ra ≤ rb
+
+/- FULL STATEMENT (false of the model and of the code, see `batch_unsorted_witness`):
+theorem batch_sorted (s0 : QSys) (h0 : s0.Init) (es : List QSysEv) (i : Nat) : SortedBatch (reach s0 es) i
+-/
+
+/-- **batch order, sequential side condition** (the `_partial` of `batch_sorted`; extra hypothesis `hno`): split the run
+as `es1 ++ es2` such that consumer `i`'s call lies within `es2` (after `es1` it has popped nothing and is not between a
+`ZRANGEBYSCORE` and its batch).  If no enqueue executes during `es2` (the enqueue log does not grow) — other consumers,
+ticks of either sign and deaths are allowed — the batch consumer `i` holds / returns is in ready-time order.
+What is missing for the full statement is false: see `batch_unsorted_witness` -/
+theorem batch_sorted_seq (s0 : QSys) (h0 : s0.Init) (es1 es2 : List QSysEv) (i : Nat)
+    (hfresh : ∀ d ∈ (reach s0 es1).pops, d.client ≠ i)
+    (hnot : ∀ c got e ids, (reach s0 es1).sys.clients[i]? = some c → c.started = true → c.pc ≠ .popExec got e ids)
+    (hno : (reach s0 (es1 ++ es2)).enqs.length = (reach s0 es1).enqs.length) :
+    SortedBatch (reach s0 (es1 ++ es2)) i := by
+  have hG1 := (GInv.init h0).run es1
+  have h1 : SeqInv (reach s0 es1).enqs.length i (reach s0 es1) :=
+    ⟨hG1, Nat.le_refl _, fun _ => SInv.ofFresh hfresh hnot⟩
+  have h2 := h1.run es2
+  have hr : reach s0 (es1 ++ es2) = (reach s0 es1).run es2 := GSys.run_append _ _ _
+  rw [hr] at hno ⊢
+  exact (h2.2.2 (Nat.le_of_eq hno)).batch h2.1
+
+/-- **batch order, concurrent side condition** (the stronger `_partial`; extra hypotheses `hm`, `hlate`): as
+`batch_sorted_seq`, but enqueues may execute during the call provided each of them has a ready time that is not
+before the system clock at the moment its batch executes (every producer in the repository: `ready ≥ now`), and the
+clock is monotone.  A late enqueue with a past ready time is exactly what `batch_unsorted_witness` uses -/
+theorem batch_sorted_conc (s0 : QSys) (h0 : s0.Init) (harr : ∀ c ∈ s0.clients, c.started = true → c.arrival ≤ s0.clock)
+    (es1 es2 : List QSysEv) (hm : Monotone (es1 ++ es2)) (i : Nat)
+    (hfresh : ∀ d ∈ (reach s0 es1).pops, d.client ≠ i)
+    (hnot : ∀ c got e ids, (reach s0 es1).sys.clients[i]? = some c → c.started = true → c.pc ≠ .popExec got e ids)
+    (hlate : ∀ (k : Nat) (e : GEnq), (reach s0 es1).enqs.length ≤ k → (reach s0 (es1 ++ es2)).enqs[k]? = some e → e.clk ≤ e.ready) :
+    SortedBatch (reach s0 (es1 ++ es2)) i := by
+  have hm1 : Monotone es1 := fun e he => hm e (List.mem_append.2 (Or.inl he))
+  have hm2 : Monotone es2 := fun e he => hm e (List.mem_append.2 (Or.inr he))
+  have hG1 := (GInv.init h0).run es1
+  have hT1 := GTInv.run (GInv.init h0) (TInv.init h0 harr) es1 hm1
+  have h1 : ConcInv (reach s0 es1).enqs.length i (reach s0 es1) :=
+    ⟨hG1, hT1, Nat.le_refl _, fun _ => SInv.ofFresh hfresh hnot⟩
+  have h2 := h1.run es2 hm2
+  have hr : reach s0 (es1 ++ es2) = (reach s0 es1).run es2 := GSys.run_append _ _ _
+  rw [hr] at hlate ⊢
+  exact (h2.2.2.2 hlate).batch h2.1
+
+def wp1 : Probe := ⟨⟨1, 10481⟩, 10481, .details, 0, 3⟩
+def wp2 : Probe := ⟨⟨2, 10482⟩, 10482, .details, 0, 3⟩
+
+/-- clock 100; producer 0 enqueues `wp1` ready at 50; consumer 1 is a `PopMany 2`; producer 2 enqueues `wp2` with a ready
+time (10) that is already in the past -/
+def witness : QSys :=
+  { clock := 100
+    clients := [{ op := .enqueue wp1 (some 50) none, pc := .start },
+                { op := .popMany 2, pc := .start },
+                { op := .enqueue wp2 (some 10) none, pc := .start }] }
+
+/-- producer 0 runs; the consumer issues its first `ZRANGEBYSCORE` (sees only `wp1`); producer 2 runs; the consumer runs to
+completion: pops `wp1`, needs one more, second round finds `wp2` -/
+def witnessEvents : List QSysEv := [.run 0, .step 1, .run 2, .run 1]
+
+theorem witness_init : witness.Init := by
+  refine ⟨RStore.consistent_empty, fun id => by simp [witness], ?_⟩
+  intro c hc
+  simp only [witness, List.mem_cons, List.not_mem_nil, or_false] at hc
+  rcases hc with rfl | rfl | rfl <;> exact ⟨rfl, fun h => by cases h⟩
+
+set_option maxRecDepth 100000 in
+theorem witness_pops : (reach witness witnessEvents).pops =
+    [⟨0, 1, wp1, none, some 50, 100, true⟩, ⟨1, 1, wp2, none, some 10, 100, true⟩] := by rfl
+
+set_option maxRecDepth 100000 in
+theorem batch_unsorted_witness :
+    witness.Init ∧
+    ((witness.run witnessEvents).clients[1]?).map (·.pc) = some (.done (.probes [wp1, wp2] 0)) ∧
+    ((reach witness witnessEvents).enqs.map fun e => (e.id, e.probe, e.ready, e.clk)) = [(0, wp1, 50, 100), (1, wp2, 10, 100)] ∧
+    ¬ SortedBatch (reach witness witnessEvents) 1 := by
+  refine ⟨witness_init, by rfl, by rfl, ?_⟩
+  unfold SortedBatch
+  rw [witness_pops]
+  simp [List.filter]
+
+set_option maxRecDepth 100000 in
+/-- non-vacuity of the hypotheses of `batch_sorted_seq` / `batch_sorted_conc`: on the witness system, with the late producer
+left out of the schedule (`es1` = producer 0 runs, `es2` = the consumer runs), all hypotheses hold and the consumer returns `[wp1]` -/
+example :
+    SortedBatch (reach witness ([.run 0] ++ [.run 1])) 1 ∧
+    (((reach witness ([.run 0] ++ [.run 1])).sys.clients[1]?).map (·.pc)) = some (.done (.probes [wp1] 0)) := by
+  refine ⟨batch_sorted_seq witness witness_init [.run 0] [.run 1] 1 ?_ ?_ (by rfl), by rfl⟩
+  · have : (reach witness [.run 0]).pops = [] := by rfl
+    rw [this]; intro d hd; cases hd
+  · intro c got e ids hc hs
+    have : ((reach witness [.run 0]).sys.clients[1]?) = some { op := .popMany 2, pc := .start } := by rfl
+    rw [this] at hc
+    cases hc
+    cases hs
+
+set_option maxRecDepth 100000 in
+/-- the witness schedule violates exactly the side condition of `batch_sorted_conc`: the second enqueue executes at clock 100
+with ready time 10 -/
+example : ¬ (∀ (k : Nat) (e : GEnq), (reach witness [.run 0, .step 1]).enqs.length ≤ k →
+    (reach witness ([.run 0, .step 1] ++ [.run 2, .run 1])).enqs[k]? = some e → e.clk ≤ e.ready) := by
+  intro h
+  have := h 1 ⟨1, 2, wp2, none, 10, 100⟩ (by decide) (by rfl)
+  exact absurd this (by decide)
 
 end Swat4.C12
